@@ -24,7 +24,7 @@ NextTrace(rej) ==
   /\ IF ti < Len(Traces) THEN ti' = ti + 1 /\ l' = 1 /\ Fresh(Traces[ti + 1])
      ELSE ti' = ti + 1 /\ l' = 1 /\ UNCHANGED vars
 Reject(why) ==
-  /\ PrintT("TRACE-REJECTED " \o ToJson([id |-> Traces[ti].id, at |-> l, why |-> why, event |-> Ops[l], pos |-> pos, snaps |-> snaps]))
+  /\ PrintT("TRACE-REJECTED " \o ToJson([id |-> Traces[ti].id, at |-> l, why |-> why, event |-> IF l <= Len(Ops) THEN Ops[l] ELSE [op |-> "end", ok |-> TRUE, tok |-> 0], pos |-> pos, snaps |-> snaps]))
   /\ NextTrace(1)
 Event ==
   /\ ti <= Len(Traces) /\ l <= Len(Ops)
